@@ -1,5 +1,5 @@
 SPECIFICATION Spec
 CHECK_DEADLOCK FALSE
 CONSTANTS
-  Count = 12
+  Count = 9
   Stride = 7
